@@ -940,10 +940,23 @@ func (m *moAnalysis) earlyExits(rg *moRegion) {
 					eff = in
 				}
 			}
+			earlier := false
+			if eff == nil {
+				// an effect anywhere in the loop body has run for the elements visited before this
+				// one: which elements those are depends on the map's iteration order
+				for eb, in := range effectAt {
+					if eb != header {
+						eff, earlier = in, true
+					}
+				}
+			}
 			if eff == nil && !handsOut {
 				continue // a pure search with an order-independent answer
 			}
 			what := "the loop over the map stops early after acting on the current element: which element is acted on depends on the map's iteration order"
+			if earlier {
+				what = "the loop over the map acts on each element it visits and can stop early: which elements were acted on before it stops depends on the map's iteration order"
+			}
 			pos := termPos(b)
 			if eff != nil {
 				pos = eff.Pos()
